@@ -22,3 +22,7 @@ package libaudit
 // verifYield is a no-op unless the package is built with the "verif" tag
 // (deterministic-simulation hooks, see verif_on.go).
 func verifYield(string) {}
+
+// verifSync is a no-op unless the package is built with the "verif" tag (see
+// verif_on.go).
+func verifSync(string, string, any) {}
